@@ -30,7 +30,7 @@ ASSUMPTIONS = [
     '(b) re-running the same input with its long character runs cut to 10,12,...,22 shows the wall time multiplying '
     'by >= 2.5 for each +2 characters at least twice (exponential time in the input length); other timeouts are '
     'reported as inconclusive in evidence',
-    'fault injection (c) targets lines the reference layout marks as selected and unmuted',
+    'fault injection (c) targets lines the reference layout marks as selected (muted or not)',
 ]
 SHARD_MIN = 20
 BUDGET = {'quick': 640, 'thorough': 40000}
@@ -41,7 +41,7 @@ LEVEL_NOTE = ('Trusted: the process runner (genuine /venv/bin/python -m bespokea
               'monitor (sys.settrace) used only to confirm timeouts.')
 
 SENTINEL = b'SENTINEL-DO-NOT-TOUCH-0123456789abcdef\n'
-ALPHABET = ['nop', 'ldi', 'jmp', 'mov', 'br', 'w12', 'a', 'x', 'hl', '[', ']', ',', ';', ':', '.org', '.byte', '.fill',
+ALPHABET = ['nop', 'ldi', 'jmp', 'mov', 'br', 'brb', 'w12', 'a', 'x', 'hl', '[', ']', ',', ';', ':', '.org', '.byte', '.fill',
             '.zero', '.zerountil', '.align', '.memzone', '.2byte', '.cstr', '#if', '#endif', '#else', '#elif', '#ifdef',
             '#define', '#include', '#mute', '#unmute', '#create_memzone', '#require', '"', "'", '0', '1', '$ff', '%101',
             '0x10', 'lbl', 'lbl:', '.loc:', '_f:', '=', 'EQU', '+', '-', '*', '/', '(', ')', '<<', '>>', '&', '|', '^',
@@ -87,6 +87,12 @@ def _cases(draw, tier):
             f'.org 4{sp}"GLOBAL"',
             f'.zero 3{sp}; comment',
             f'jmp {{{w}',
+            f'brb {{{w}',
+            f'lbl: brb {{lbl{sp}',
+            f'lbl: brb {{{sp}lbl',
+            f'lbl: brb {{lbl{sp}+{sp}1',
+            f'lbl: brb {{lbl{sp}}}',
+            f'lbl: br lbl{sp}+{sp}0',
             f'jmp [{w}',
             f'mov a, [hl +{sp}{w}',
             f'.byte ' + '(' * n + '1' + ')' * n,
@@ -120,7 +126,7 @@ def _cases(draw, tier):
         return {'klass': klass, 'isa': cfg, 'items': items, 'pp': pp, 'pre': pre}
     if klass == 'fault':
         fault = draw(st.sampled_from(['unresolvable-label', 'unknown-mnemonic', 'no-variant-accepts', 'value-too-large',
-                                      'unknown-mnemonic-after-directive']))
+                                      'unknown-mnemonic-after-directive', 'unresolvable-label-in-a-line-without-bytes']))
         return {'klass': klass, 'isa': cfg, 'items': items, 'fault': fault, 'pick': draw(st.integers(0, 1000)),
                 'pp': pp, 'pre': pre}
     files = G.render_program(items)
@@ -175,7 +181,8 @@ def inject(case):
         return None
     if verdict != 'accepted':
         return None
-    cands = [ln for ln in lay.lines if ln['has_bytes'] and not ln['muted'] and ln['item']['t'] in ('instr', 'data')]
+    # muted lines are part of the program too: their faults are faults
+    cands = [ln for ln in lay.lines if ln['has_bytes'] and ln['item']['t'] in ('instr', 'data')]
     if not cands:
         return None
     target = cands[case['pick'] % len(cands)]['item']
@@ -202,6 +209,9 @@ def inject(case):
     if f == 'unresolvable-label':
         its[k] = {'t': 'data', 'd': '.2byte', 'vals': [['lab', 'nowhere_defined']]} if it['t'] == 'data' else \
             {'t': 'instr', 'mn': 'jmp', 'ops': [{'k': 'expr', 'e': ['lab', 'nowhere_defined']}]}
+    elif f == 'unresolvable-label-in-a-line-without-bytes':
+        # the value of a fill that emits nothing still names something that does not exist
+        its[k] = {'t': 'fill', 'n': ['num', 0, 'dec'], 'v': ['lab', 'nowhere_defined']}
     elif f == 'unknown-mnemonic':
         its[k] = {'t': 'instr', 'mn': 'frob', 'ops': [{'k': 'expr', 'e': ['num', 1, 'dec']}]}
     elif f == 'unknown-mnemonic-after-directive':
